@@ -130,6 +130,9 @@ func (w *Worker) buildCex(s *State, label, neg, note string) *Cex {
 			if (u.Name == "strings.ToLower" || u.Name == "strings.ToUpper" || u.Name == "strings.TrimSpace") && len(u.Args) == 1 {
 				strShape = append(strShape, tEq(u.Res, u.Args[0]))
 			}
+			if (u.Name == "url.queryunescape" || u.Name == "url.pathunescape") && len(u.Args) == 1 {
+				strShape = append(strShape, "(not (str.contains "+u.Args[0]+" \"%\"))") // escapes are uninterpreted: avoid them
+			}
 			if u.Name == "regex.replace" && len(u.Args) == 3 {
 				strShape = append(strShape, tEq(u.Res, u.Args[1])) // nothing matched
 			}
@@ -145,13 +148,24 @@ func (w *Worker) buildCex(s *State, label, neg, note string) *Cex {
 		if len(strShape) > 0 {
 			tiers = append([][]string{cat(shape, small, strShape), cat(shape, strShape)}, tiers...)
 		}
-		for _, tier := range tiers {
-			if len(tier) == 1 {
-				continue
+		// a short attempt per tier first; when the solver did not answer in time (a loaded machine)
+		// the tiers are tried once more with a long timeout before an unshaped model is accepted
+		for _, to := range []int{4000, 45000} {
+			timedOut := false
+			for _, tier := range tiers {
+				if len(tier) == 1 {
+					continue
+				}
+				r, v := w.S.CheckPreciseTO(s.Decls, s.PC, tier, terms, to)
+				if r == "sat" {
+					vals, shaped = v, len(shape) > 0 || len(nows) == 0
+					break
+				}
+				if r != "unsat" {
+					timedOut = true
+				}
 			}
-			r, v := w.S.CheckPreciseTO(s.Decls, s.PC, tier, terms, 4000)
-			if r == "sat" {
-				vals, shaped = v, len(shape) > 0 || len(nows) == 0
+			if vals != nil || !timedOut {
 				break
 			}
 		}
